@@ -160,7 +160,16 @@ def r2(ctx: Ctx) -> None:
                         ctx.check(len(regs) == 1 and (kw(regs[0], "market", 0) or kw(regs[0], "agent", 0)) == made[0].term and key(kw(regs[0], "group_name", 1) or NONE) == f"{l.target[0]}∈{l.loopid}", f, il.node,
                                   "each created entity is registered once under its group", f"{reg.split('.')[-1]}(entity, group_name=name)", f"{len(regs)} registration(s)")
             # the counter starts at 0 and is never reset between groups
-            for cn in [k for k in l.phi if k.startswith("i_")]:
+            id_counters = set()
+            for bp in l.paths:
+                for il in loops(bp):
+                    for ip in il.paths:
+                        for e in calls(ip):
+                            if e.site.how == "ctor" and kw(e, ctor_kw) is not None:
+                                for k_, ph_ in il.phi.items():
+                                    if ph_ == kw(e, ctor_kw):
+                                        id_counters.add(k_)
+            for cn in sorted(id_counters & set(l.phi)):
                 ctx.check(l.init.get(cn) == ("const", 0), f, l.node, "ids start at 0", "0", short(l.init.get(cn)))
                 resets = [bp for bp in l.paths if bp.exit[0] != "raise" and bp.env.get(cn) is not None and not any(x[0] == "sym" and (x[1].startswith("ψ") or x == l.phi[cn]) for x in subterms(bp.env[cn]))]
                 ctx.check(not resets, f, l.node, "the id counter carries over from group to group", "never re-initialised inside the group loop", f"{len(resets)} path(s) reset it")
@@ -375,14 +384,21 @@ def r6(ctx: Ctx) -> None:
         if p.exit[0] == "return":
             r = strip_ver(p.exit[1])
             ctx.check(r[0] == "sub" and r[1] == cand and r[2] == ("const", 0), f, f.node, "the single candidate is returned", "candidates[0]", short(r)[:80])
-        ok = cand[0] == "comp" and cand[2] == ("call", ("name", "getattr"), (("bound", cand[3][0][0][0]), ("sym", "name")), (), None) and len(cand[3][0][2]) == 1 and key(cand[3][0][2][0]) == f"hasattr({cand[3][0][0][0]}, name)"
+        ok = cand[0] == "comp" and cand[2] == ("call", ("name", "getattr"), (("bound", cand[3][0][0][0]), ("sym", "name")), (), None) and len(cand[3][0][2]) == 1 and cand[3][0][2][0] == ("call", ("name", "hasattr"), (("bound", cand[3][0][0][0]), ("sym", "name")), (), None)
         ctx.check(ok, f, f.node, "candidates are the attributes called `name` of the searched namespaces", "[getattr(m, name) for m in spaces if hasattr(m, name)]", short(cand)[:120])
         imps = sorted(e.args[0][1] for e in calls(p) if e.name == "__import__" and e.args and e.args[0][0] == "const")
         ctx.check(imps == ["pams", "pams.agents", "pams.events", "pams.logs", "pams.utils"], f, f.node, "searched namespaces", "pams, pams.agents, pams.events, pams.logs, pams.utils", str(imps))
         has_opt = [pol for c, pol in conds if key(c) == "(optional_class_list is None)"]
         ext = [e for e in calls(p) if e.name == "extend" and strip_ver(e.recv) == cand]
         if has_opt and not has_opt[0]:
-            ok = len(ext) == 1 and strip_ver(ext[0].args[0])[0] == "comp" and key(strip_ver(ext[0].args[0])[3][0][1]) == "optional_class_list" and key(strip_ver(ext[0].args[0])[3][0][2][0]) == "(x.__name__ == name)"
+            ok = len(ext) == 1 and strip_ver(ext[0].args[0])[0] == "comp" and key(strip_ver(ext[0].args[0])[3][0][1]) == "optional_class_list"
+            if ok:
+                from ..terms import canon_pred
+
+                cmp_ = strip_ver(ext[0].args[0])
+                bn = cmp_[3][0][0][0]
+                cc, cp = canon_pred(cmp_[3][0][2][0]) if len(cmp_[3][0][2]) == 1 else (NONE, True)
+                ok = cp and cc[0] == "cmp" and cc[1] == "==" and {key(cc[2]), key(cc[3])} == {f"{bn}.__name__", "name"} and cmp_[2] == ("bound", bn)
             ctx.check(ok, f, f.node, "registered classes with that name are candidates too", "candidates.extend([x for x in optional_class_list if x.__name__ == name])", f"{len(ext)} extension(s)")
         else:
             ctx.check(not ext, f, f.node, "no registered classes -> nothing added", "no extension", str(len(ext)))
